@@ -11,7 +11,7 @@ use vcore::grammar::*;
 use vcore::report::Run;
 
 /// (name, is_block, payload, bare keyword?)
-pub const PAYLOADS: [(&str, bool, &str); 12] = [
+pub const PAYLOADS: [(&str, bool, &str); 15] = [
     ("kw", false, ""),
     ("kw-args", false, "1 \"s\" 2.5 0x1F"),
     ("block-empty", true, ""),
@@ -24,6 +24,10 @@ pub const PAYLOADS: [(&str, bool, &str); 12] = [
     ("block-nested-same-tag", true, "/begin UNKNOWN_TAG 1 /end UNKNOWN_TAG"),
     ("block-string-with-end", true, "\"/end UNKNOWN_TAG\" 3"),
     ("kw-negative-float", false, "-1.5e-3 .5"),
+    // identifier arguments that are spelled like keywords / enum items (none of them is a tag of the format)
+    ("kw-upper-ident-args", false, "1 FAST_Q \"two\" ON_Q"),
+    ("kw-lower-ident-args", false, "abc d.e[1] f_g"),
+    ("block-upper-ident-args", true, "SLOW_Q 1 /begin INNER FAST_Q /end INNER OFF_Q"),
 ];
 
 pub struct Case7 {
